@@ -165,6 +165,16 @@ func v2Values(o *Op) map[string]v2types.AttributeValue {
 	return m
 }
 
+func v2Start(o *Op, start Item) map[string]v2types.AttributeValue {
+	if len(start) > 0 {
+		return toV2Item(start)
+	}
+	if o.EmptyStart {
+		return map[string]v2types.AttributeValue{} // an empty map is no start key, like nil
+	}
+	return nil
+}
+
 func searchV2(c *v2.Client, o *Op, start Item) (Item, []Item, error) {
 	var items []map[string]v2types.AttributeValue
 	var lek map[string]v2types.AttributeValue
@@ -174,7 +184,7 @@ func searchV2(c *v2.Client, o *Op, start Item) (Item, []Item, error) {
 	}
 	if o.Scan {
 		out, err := c.Scan(ctx, &dynamodb.ScanInput{TableName: strptr(o.Table), IndexName: optStr(o.Index), FilterExpression: optStr(o.Filter),
-			ExpressionAttributeNames: strMap(o.names), ExpressionAttributeValues: v2Values(o), Limit: lim, ExclusiveStartKey: toV2Item(start)})
+			ExpressionAttributeNames: strMap(o.names), ExpressionAttributeValues: v2Values(o), Limit: lim, ExclusiveStartKey: v2Start(o, start)})
 		if err != nil {
 			return nil, nil, err
 		}
@@ -185,7 +195,7 @@ func searchV2(c *v2.Client, o *Op, start Item) (Item, []Item, error) {
 	} else {
 		out, err := c.Query(ctx, &dynamodb.QueryInput{TableName: strptr(o.Table), IndexName: optStr(o.Index), KeyConditionExpression: optStr(o.KeyCond),
 			FilterExpression: optStr(o.Filter), ExpressionAttributeNames: strMap(o.names), ExpressionAttributeValues: v2Values(o), Limit: lim,
-			ExclusiveStartKey: toV2Item(start), ScanIndexForward: aws.Bool(o.Forward)})
+			ExclusiveStartKey: v2Start(o, start), ScanIndexForward: aws.Bool(o.Forward)})
 		if err != nil {
 			return nil, nil, err
 		}
@@ -334,6 +344,8 @@ func runV2(c *v2.Client, o *Op) (out Outcome) {
 			ExpressionAttributeNames: strMap(o.names), ExpressionAttributeValues: v2Values(o)}
 		if o.RetOld {
 			in.ReturnValues = v2types.ReturnValueAllOld
+		} else if o.RetOther != "" {
+			in.ReturnValues = v2types.ReturnValue(o.RetOther)
 		}
 		res, err := c.DeleteItem(ctx, in)
 		if err != nil {
